@@ -220,6 +220,17 @@ H_ASSIGN_SELF(h_assign_self_m)
   if (which == 0) r = s_append_ptr_n(&s, BUF(s) + k, c); else if (which == 1) r = s_append_sv(&s, BUF(s) + k, c); else if (which == 2) r = s_append_str_pos_n(&s, &s, k, c); \
   else if (which == 3) r = s_append_range(&s, BUF(s) + k, BUF(s) + k + c); else { __CPROVER_assume(k == 0 && c == o.n); r = s_append_str(&s, &s); } \
   POST(s, sp_splice(o, o.n, 0, old + k, c), "append(<characters of the string itself>): the appended characters are the old substring [k, k+c)"); VF_ASSERT(r == &s, "append returns *this"); VF_REACH(); }
+/* the string itself as the OTHER operand: relations, searches and affix tests with both operands the same object, views into the
+ * string's own storage, self-assignment and self-swap */
+#define H_SELF_OPERAND(NAME) void NAME(void) { ARB(s); VF_INPUT(unsigned char, k); VF_INPUT(unsigned char, c); view_t o = view_of(&s); __CPROVER_assume(k <= o.n && c <= o.n - k); \
+  VF_ASSERT(s_compare_str(&s, &s) == 0 && s_eq(&s, &s) && !s_ne(&s, &s) && !s_lt(&s, &s) && s_le(&s, &s) && !s_gt(&s, &s) && s_ge(&s, &s), "relations of a string with itself"); \
+  VF_ASSERT(s_find_str(&s, &s, 0) == 0 && s_rfind_str(&s, &s, ~0UL) == 0, "find/rfind of the string in itself"); \
+  { _Bool pre = 1, suf = 1; for (int j = 0; j < N; ++j) { if (j < c && o.a[j] != o.a[k + j]) pre = 0; if (j < c && o.a[o.n - c + j] != o.a[k + j]) suf = 0; } \
+    VF_ASSERT(s_starts_sv(&s, BUF(s) + k, c) == pre && s_ends_sv(&s, BUF(s) + k, c) == suf && s_contains_sv(&s, BUF(s) + k, c), "starts_with/ends_with/contains with a view into the string's own storage"); } \
+  S *r = s_assign_str(&s, &s); POST(s, o, "self-assignment assign(s) leaves the value unchanged"); VF_ASSERT(r == &s, "assign returns *this"); \
+  s_swap(&s, &s); POST(s, o, "self-swap leaves the value unchanged"); VF_REACH(); }
+/*@GROUP name=self_operand props=C04,C02,C05 kind=K unwind=11 when=VF_N<=7@*/
+H_SELF_OPERAND(h_self_operand)
 /*@GROUP name=insert_self props=C04,C02 kind=K unwind=11 when=VF_N<=7@*/
 H_INSERT_SELF(h_insert_self)
 /*@GROUP name=insert_self_m props=C04,C02 kind=K unwind=20 when=7<VF_N<=16 objbits=13 tier=thorough timeout=3000@*/
